@@ -22,7 +22,7 @@
 #define C7_SLOTS 4
 typedef struct { OggVorbis_File vf; memsrc ms; int open; long seq[64];
   /* cross-lap expectation for the next reads: audio that followed the old position, landing position, lap length */
-  int lap_valid,lap_oldlink,lap_n,lap_ch1,lap_hs,lap_oldunk,lap_newlink,stale,lap_tail_ok; long lap_k; long played; /* samples read since the last seek/open/toggle */ ogg_int64_t lap_oldpos,lap_newpos; } c7_handle;
+  int lap_valid,lap_oldlink,lap_n,lap_ch1,lap_hs,lap_oldunk,lap_newlink,stale,lap_tail_ok; long lap_k; int ffq_mark; long played; /* samples read since the last seek/open/toggle */ ogg_int64_t lap_oldpos,lap_newpos; } c7_handle;
 extern const float *_vorbis_window_get(int n);
 static c7_handle c7h[C7_SLOTS];
 static buf_t c7_phys={0,0,0};
@@ -483,6 +483,7 @@ static int c07_main(int argc,char **argv){
       if(n>=7){ H->ms.fault_at=atol(tok[4]); H->ms.fault_kind=atoi(tok[5]); H->ms.fault_persist=atoi(tok[6]); }
       rc=(op[0]=='o')?ov_open_callbacks(&H->ms,&H->vf,NULL,0,ms_callbacks(seekable)):ov_test_callbacks(&H->ms,&H->vf,NULL,0,ms_callbacks(seekable));
       printf("%s rc=%s closed=%d",op,ovname(rc),H->ms.closed);
+      if(rc==0&&n>=7)printf(" fired=%d",H->ms.faults_fired);
       if(rc==0){ H->open=1; c7_linktable(H); }
       else{ unsigned char *z=(unsigned char*)&H->vf; size_t k; int zero=1; for(k=0;k<sizeof(H->vf);k++)if(z[k]){zero=0;break;} printf(" zeroed=%d fired=%d",zero,H->ms.faults_fired); }
       putchar('\n');
@@ -493,8 +494,9 @@ static int c07_main(int argc,char **argv){
       /* ops on an open handle */
       int s=(n>=2)?atoi(tok[1])%C7_SLOTS:0; c7_handle *H=&c7h[s]; OggVorbis_File *vf=&H->vf;
       if(!H->open){ printf("%s notopen\n",op); free(line); continue; }
-      if(!strcmp(op,"fault")&&n>=5){ H->ms.fault_at=H->ms.ncalls+atol(tok[2]); H->ms.fault_kind=atoi(tok[3]); H->ms.fault_persist=atoi(tok[4]); H->ms.faults_fired=0; printf("fault armed\n"); }
+      if(!strcmp(op,"fault")&&n>=5){ H->ms.fault_at=H->ms.ncalls+atol(tok[2]); H->ms.fault_kind=atoi(tok[3]); H->ms.fault_persist=atoi(tok[4]); H->ms.faults_fired=0; H->ffq_mark=0; printf("fault armed\n"); }
       else if(!strcmp(op,"nofault")){ printf("nofault fired=%d\n",H->ms.faults_fired); H->ms.fault_kind=0; }
+      else if(!strcmp(op,"ffq")){ printf("ffq fired=%d kind=%d\n",H->ms.faults_fired-H->ffq_mark,H->ms.fault_kind); H->ffq_mark=H->ms.faults_fired; }
       else if(!strcmp(op,"tell")) printf("tell %lld\n",(long long)ov_pcm_tell(vf));
       else if(!strcmp(op,"rawtell")) printf("rawtell %lld\n",(long long)ov_raw_tell(vf));
       else if(!strcmp(op,"timetell")) printf("timetell %.9f\n",ov_time_tell(vf));
